@@ -24,6 +24,7 @@ import (
 
 	"verif/harness/ev"
 	"verif/harness/fakes/ddb"
+	"verif/harness/fakes/sqlmini"
 	"verif/harness/probe"
 	"verif/harness/world"
 )
@@ -48,6 +49,12 @@ var v1sess = awssession.Must(awssession.NewSession(aws.NewConfig().WithRegion("u
 func storeKinds() []storeKind {
 	return []storeKind{
 		{"memory", "", func() appencryption.Metastore { return persistence.NewMemoryMetastore() }},
+		{"sql", "", func() appencryption.Metastore {
+			// the SQL metastore over the mini SQL engine (ids of any length are distinct keys there)
+			_, h := sqlmini.Open(sqlmini.MySQL)
+			h.SetMaxOpenConns(4)
+			return persistence.NewSQLMetastore(h)
+		}},
 		{"memory+suffix-wrapper", "us-west-2", func() appencryption.Metastore {
 			return &probe.Suffixed{Metastore: probe.NewMetastore(persistence.NewMemoryMetastore()), Suffix: "us-west-2"}
 		}},
